@@ -115,7 +115,18 @@ func doMatchIn(expression *grammar.MatchExpression, value reflect.Value) (bool, 
 
 	switch kind := value.Kind(); kind {
 	case reflect.Map:
-		found := value.MapIndex(reflect.ValueOf(matchValue))
+		key := reflect.ValueOf(matchValue)
+		keyType := value.Type().Key()
+		switch {
+		case key.Type().AssignableTo(keyType):
+		case keyType.Kind() == reflect.String:
+			// named string key types
+			key = key.Convert(keyType)
+		default:
+			// MapIndex panics when the key is not assignable to the map's key type
+			return false, fmt.Errorf("Cannot perform in/contains operations on a map with %s keys for selector: %q", keyType.Kind(), expression.Selector)
+		}
+		found := value.MapIndex(key)
 		return found.IsValid(), nil
 
 	case reflect.Slice, reflect.Array:
